@@ -192,16 +192,17 @@ pub fn spawn_broker<R: Responder>(wire: Wire, cfg: ServerCfg, r: R) -> BrokerHan
                         None => break,
                     }
                 }
+                let pos0 = dec.pos();
                 let out = {
                     let st = wire.lock();
-                    if st.out.len() > dec.pos() || (phase == 0 && st.out.len() >= 8) {
-                        Some(st.out.clone())
+                    if st.out.len() > pos0 && (pos0 > 0 || st.out.len() >= 8) {
+                        Some(st.out[pos0..].to_vec())
                     } else {
                         None
                     }
                 };
                 if let Some(out) = out {
-                    let frames = dec.feed(&out);
+                    let frames = dec.feed_from(&out, pos0);
                     if phase == 0 && dec.saw_header() {
                         send_chunked(
                             &mut io,
@@ -267,19 +268,15 @@ pub fn spawn_broker<R: Responder>(wire: Wire, cfg: ServerCfg, r: R) -> BrokerHan
                         }
                     }
                 }
-                if phase == 4 {
-                    r.on_tick(&mut io);
-                }
+                r.on_tick(&mut io);
                 // sleep until something happens
                 let pos = dec.pos();
                 let ctl3 = ctl2.clone();
                 wire.wait_until(Duration::from_millis(2), |st| {
-                    st.out.len() > pos.max(if pos == 0 { 7 } else { 0 })
-                        && (pos > 0 || st.out.len() >= 8)
-                        || {
-                            let g = ctl3.lock().unwrap();
-                            g.stop || !g.cmds.is_empty()
-                        }
+                    (st.out.len() > pos && (pos > 0 || st.out.len() >= 8)) || st.held || {
+                        let g = ctl3.lock().unwrap();
+                        g.stop || !g.cmds.is_empty()
+                    }
                 });
             }
         })
@@ -446,8 +443,58 @@ impl Responder for AutoBroker {
             let seq = self.seq.entry(*ch).or_insert(0);
             if let Some(reply) = reply_for(self.salt, *ch, *seq, m) {
                 self.log.push((*ch, *seq, m.clone(), reply.clone()));
+                let this_seq = *seq;
                 *seq += 1;
-                io.send_method(*ch, reply);
+                // "full." queues hold one message: Get answers GetOk + content, Consume is
+                // followed by one delivery
+                match m {
+                    AMQPClass::Basic(Basic::Get(g)) if crate::ops::is_full_queue(&g.queue) => {
+                        let body = crate::ops::full_message_body(self.salt, *ch, this_seq);
+                        let u = |k| uniq(self.salt, *ch, this_seq, k);
+                        let frames = content_frames(
+                            *ch,
+                            AMQPClass::Basic(Basic::GetOk(basic::GetOk {
+                                delivery_tag: crate::ops::delivery_tag_for(self.salt, *ch, this_seq),
+                                redelivered: u(14) & 1 == 1,
+                                exchange: format!("ex-{:x}", u(15)),
+                                routing_key: format!("rk-{:x}", u(16)),
+                                message_count: u(17),
+                            })),
+                            &amiquip::AmqpProperties::default(),
+                            &body,
+                            &[7, 13],
+                        );
+                        for f in frames {
+                            io.send(f);
+                        }
+                    }
+                    AMQPClass::Basic(Basic::Consume(c)) if crate::ops::is_full_queue(&c.queue) => {
+                        io.send_method(*ch, reply.clone());
+                        let tag = match &reply {
+                            AMQPClass::Basic(Basic::ConsumeOk(ok)) => ok.consumer_tag.clone(),
+                            _ => String::new(),
+                        };
+                        let body = crate::ops::full_message_body(self.salt, *ch, this_seq);
+                        let u = |k| uniq(self.salt, *ch, this_seq, k);
+                        let frames = content_frames(
+                            *ch,
+                            AMQPClass::Basic(Basic::Deliver(basic::Deliver {
+                                consumer_tag: tag,
+                                delivery_tag: crate::ops::delivery_tag_for(self.salt, *ch, this_seq),
+                                redelivered: u(14) & 1 == 1,
+                                exchange: format!("ex-{:x}", u(15)),
+                                routing_key: format!("rk-{:x}", u(16)),
+                            })),
+                            &amiquip::AmqpProperties::default(),
+                            &body,
+                            &[5, 1000],
+                        );
+                        for f in frames {
+                            io.send(f);
+                        }
+                    }
+                    _ => io.send_method(*ch, reply),
+                }
             }
         }
     }
